@@ -244,6 +244,20 @@ def collectFees (s : St) (sender : Addr) (posId : Nat) : Res (St × List (String
   return ({ s1 with bank := b }, claimed)
 
 -- ------------------------------------------------------------------------------------------ messages
+/-- sdk.ValidateDenom: [a-zA-Z][a-zA-Z0-9/:._-]{2,127} -/
+def validDenom (d : String) : Bool :=
+  let cs := d.toList
+  match cs with
+  | [] => false
+  | c :: rest =>
+    c.isAlpha && cs.length ≥ 3 && cs.length ≤ 128 &&
+    rest.all fun x => x.isAlphanum || x == '/' || x == ':' || x == '.' || x == '_' || x == '-'
+
+/-- Msg/CreatePool validation (as fixed): denoms valid, fee ∈ [0,1), ratio > 1, offset ∈ [0,1) -/
+def createPoolValid (base quote : Denom) (fee ratio offset : Dec) : Bool :=
+  validDenom base && validDenom quote && !fee.isNegative && fee.raw < PREC && ratio.raw > PREC
+    && !offset.isNegative && offset.raw < PREC
+
 def createPool (s : St) (base quote : Denom) (fee ratio offset : Dec) : St × Nat :=
   let id := s.nextPool
   ({ s with pools := s.pools ++ [⟨id, base, quote, fee, ⟨ratio, offset⟩, 0, Dec.zero, Dec.zero⟩],
